@@ -1,8 +1,10 @@
 (* Props/C03.v — The [SIGNATURE] hash is the MD5 of exactly the preceding file content.
-   Statements only (proofs in Proofs/SignatureProofs.v).  The digest function is arbitrary (MD5 in
-   the implementation); the literal bytes of the signature block are read from write_seq.py. *)
+   Statements only (proofs in Proofs/SignatureProofs.v and Proofs/Md5Proofs.v).  The first group holds for an
+   arbitrary digest function; the second group instantiates it with MD5 itself (Model/Md5.v, RFC 1321, validated in
+   the kernel on the RFC's test suite and on every run against the Hash lines the implementation writes).  The
+   literal bytes of the signature block are read from write_seq.py. *)
 From Coq Require Import List Bool ZArith.
-From PV Require Import Gen.GenSignature Model.Signature Proofs.SignatureProofs.
+From PV Require Import Gen.GenSignature Model.Signature Proofs.SignatureProofs Model.Md5 Proofs.Md5Proofs.
 Import ListNotations.
 
 (* For every body that does not contain the section name and every digest without whitespace:
@@ -39,3 +41,39 @@ Proof.
   exists ex_hash, bad_body. intro H. pose proof sig_collision_refuted as R.
   rewrite H in R. revert R. vm_compute. intuition congruence.
 Qed.
+
+(* ---- with MD5 itself as the digest (Model/Md5.v) --------------------------------------------------- *)
+
+(* The executable MD5 of the model reproduces the RFC 1321 test suite (one-block, padding-spill and
+   two-block messages), evaluated by the kernel. *)
+Theorem C03_md5_rfc1321_test_suite :
+  md5_hex [] = [100; 52; 49; 100; 56; 99; 100; 57; 56; 102; 48; 48; 98; 50; 48; 52; 101; 57; 56; 48; 48; 57; 57; 56; 101; 99; 102; 56; 52; 50; 55; 101]%Z /\
+  md5_hex [97; 98; 99]%Z = [57; 48; 48; 49; 53; 48; 57; 56; 51; 99; 100; 50; 52; 102; 98; 48; 100; 54; 57; 54; 51; 102; 55; 100; 50; 56; 101; 49; 55; 102; 55; 50]%Z /\
+  md5_hex alnum = [100; 49; 55; 52; 97; 98; 57; 56; 100; 50; 55; 55; 100; 57; 102; 53; 97; 53; 54; 49; 49; 99; 50; 99; 57; 102; 52; 49; 57; 100; 57; 102]%Z /\
+  md5_hex digits80 = [53; 55; 101; 100; 102; 52; 97; 50; 50; 98; 101; 51; 99; 57; 53; 53; 97; 99; 52; 57; 100; 97; 50; 101; 50; 49; 48; 55; 98; 54; 55; 97]%Z.
+Proof. exact (conj md5_rfc_empty (conj md5_rfc_abc (conj md5_rfc_alnum md5_rfc_digits80))). Qed.
+Print Assumptions C03_md5_rfc1321_test_suite.
+
+(* The Hash value is always 32 characters from 0-9a-f: never empty, never white space (the hypothesis `clean` of
+   the theorems above holds for the digest the implementation uses, for every content). *)
+Theorem C03_md5_hex_shape : forall m,
+  length (md5_hex m) = 32%nat /\ (forall c, In c (md5_hex m) -> (48 <= c <= 57 \/ 97 <= c <= 102)%Z) /\ clean (md5_hex m).
+Proof. intro m. exact (conj (md5_hex_length m) (conj (md5_hex_charset m) (md5_hex_clean m))). Qed.
+Print Assumptions C03_md5_hex_shape.
+
+(* The message is hashed in whole 64-byte blocks and is a prefix of what is hashed. *)
+Theorem C03_md5_padding : forall m,
+  (Z.of_nat (length (md5_pad m)) mod 64 = 0)%Z /\ firstn (length m) (md5_pad m) = m.
+Proof. intro m. exact (conj (md5_pad_whole_blocks m) (md5_pad_prefix m)). Qed.
+Print Assumptions C03_md5_padding.
+
+(* write(create_signature=True) with MD5: for every content free of the section name, the value returned is the MD5 of
+   the content, the reader recovers (content, "md5", that MD5), and the content is exactly what precedes the newline in
+   front of [SIGNATURE].  No hypothesis on the digest is left. *)
+Theorem C03_write_contract_md5 : forall body,
+  no_sub sig_tag body = true ->
+  let '(f, ret) := write_signed_md5 body in
+  ret = Some (md5_hex body) /\ split_sig f = Some (body, MD5, md5_hex body) /\
+  exists k, find_sub sig_marker f = Some k /\ firstn k f = body.
+Proof. exact write_signed_md5_contract. Qed.
+Print Assumptions C03_write_contract_md5.
